@@ -37,6 +37,10 @@ func stringInputs(c *Ctx) (pool [][]byte, cl []string) {
 			h[pos] = byte(a)
 			add([]byte(`"x\u`+string(h)+`y"`), "uhex")
 			add([]byte(`"\ud834\u`+string(h)+`"`), "uhex2")
+			l := []byte("dd1e")
+			l[pos] = byte(a)
+			add([]byte(`"\ud834\u`+string(l)+`"`), "uhex2-low")
+			add([]byte(`"x\uDBFF\u`+string(l)+`y" `), "uhex2-low")
 		}
 	}
 	step := c.scale(37, 1)
@@ -118,6 +122,33 @@ func init() {
 						cases = append(cases, Case{Line: "UnescapeStringContent " + body + " -", Impl: implU, Class: cl[i] + ":unescape"})
 						cases = append(cases, specCase(cl[i]+":unescape:spec", "specUnescapeWF "+body, okErr(implU, true)))
 					}
+				}
+			}
+		}
+		// the hand-written helpers directly: every byte value at each of the 6 (12) positions of \uXXXX(\uXXXX)
+		for _, base := range []string{`\u0041`, `\ud834`, `\udd1e`, `\uFFFF`, `\u00e9`} {
+			for pos := 0; pos < 6; pos++ {
+				for a := 0; a < 256; a++ {
+					d := []byte(base + "rest")
+					d[pos] = byte(a)
+					cases = append(cases, apiCase("getu4", "getu4", hx(d)))
+					if pos < len(base) {
+						cases = append(cases, apiCase("getu4:short", "getu4", hx(d[:pos+1])))
+					}
+				}
+			}
+		}
+		for _, first := range []string{`\ud834`, `\udbff`, `\ud800`, `\u0041`, `\udc00`, `\ud7ff`, `\ue000`} {
+			for _, second := range []string{`\udd1e`, `\udc00`, `\udfff`, `\ud834`, `\u0041`, `\ue000`, `\udbff`} {
+				for pos := 0; pos < 6; pos++ {
+					for a := 0; a < 256; a++ {
+						d := []byte(first + second + "t")
+						d[6+pos] = byte(a)
+						cases = append(cases, apiCase("unescapeUnicodeChar", "unescapeUnicodeChar", hx(d), "7071"))
+					}
+				}
+				for cut := 6; cut <= 12; cut++ {
+					cases = append(cases, apiCase("unescapeUnicodeChar:short", "unescapeUnicodeChar", hx([]byte(first + second)[:cut]), "-"))
 				}
 			}
 		}
